@@ -2536,6 +2536,13 @@ class OMPLoopDirective(OMPRegionDirective):
                         f"'{self}' has a collapse={self._collapse} and the "
                         f"nested statement at depth {depth} is a "
                         f"{type(cursor).__name__} rather than a Loop.")
+                if len(cursor.parent.children) != 1:
+                    raise GenerationError(
+                        f"OMPLoopDirective must have as many immediately "
+                        f"nested loops as the collapse clause specifies but "
+                        f"'{self}' has a collapse={self._collapse} and the "
+                        f"loop at depth {depth} is not the only statement "
+                        f"of the enclosing body.")
                 cursor = cursor.loop_body.children[0]
 
         super().validate_global_constraints()
